@@ -6,7 +6,7 @@ CONSTANTS
   SlotType <- MCSlotType3
   MaxExplicit = 1
   Policy <- PolicyAny
-  MemberTypes <- MembersNone
+  MemberTypes <- MembersDerived
   MaxBirths = 2
 INVARIANTS TypeOK Conservation AliveIffReferenced NoDangling StaticTypes DestroyedExactlyOnce
 PROPERTIES DiesAtLastRelease EqualIffSameObject StepRecord
